@@ -95,6 +95,7 @@ type Ctx struct {
 
 	Funcs      []*FuncInfo
 	byObj      map[*types.Func]*FuncInfo
+	Norm       *normResult         // helper inlining applied before analysis (nil or empty: the text is analysed as is)
 	statHelper map[*types.Func]int // C02: lookup helpers (see statSubject)
 	byLit      map[*ast.FuncLit]*FuncInfo
 	litOfVar   map[*types.Var]*FuncInfo // local variable bound exactly once to a literal
@@ -591,4 +592,12 @@ func (c *Ctx) mutex(role string) *types.Var {
 	}
 	c.unresolved("unknown mutex role %s", role)
 	return nil
+}
+
+// Pos is the position of the function (declaration or literal).
+func (f *FuncInfo) Pos() token.Pos {
+	if f.Decl != nil {
+		return f.Decl.Pos()
+	}
+	return f.Lit.Pos()
 }
